@@ -7,6 +7,7 @@ import (
 	"math/rand"
 	"net/http"
 	"net/url"
+	"reflect"
 	"regexp"
 	"sort"
 	"strings"
@@ -25,6 +26,7 @@ type totCase struct {
 	Cons    [][]string `json:"header_constraints,omitempty"` // per route: Headers() pairs (nil = unconstrained)
 	NF      string     `json:"not_found"`                    // default | custom
 	MW      bool       `json:"app_middleware"`
+	Wrap    bool       `json:"handler_wrapper,omitempty"` // a HandlerWrapper is configured that runs the handler it was given and writes what it returns: every route must still run its own handler
 	Reqs    []totReq   `json:"requests"`
 }
 
@@ -88,7 +90,7 @@ func hostilePath(rng *rand.Rand, routes []*rmodel.Route) (string, string) {
 
 func genTotCase(rng *rand.Rand) (*totCase, []string) {
 	set := gen.GenSet(rng, gen.Cfg{AllowRoot: true}, 8)
-	c := &totCase{NF: []string{"default", "custom"}[rng.Intn(2)], MW: rng.Intn(5) != 0}
+	c := &totCase{NF: []string{"default", "custom"}[rng.Intn(2)], MW: rng.Intn(5) != 0, Wrap: rng.Intn(4) == 0}
 	meths := [][]string{{"GET"}, {"GET", "POST"}, {"GET", "HEAD", "TRACE"}}[rng.Intn(3)]
 	for _, rt := range set {
 		c.Routes = append(c.Routes, rt.Render())
@@ -109,6 +111,13 @@ func genTotCase(rng *rand.Rand) (*totCase, []string) {
 		m := meths[rng.Intn(len(meths))]
 		if rng.Intn(5) == 0 {
 			m = hostileMethods[rng.Intn(len(hostileMethods))]
+		}
+		if rng.Intn(12) == 0 && len(m)+len(p) > 0 {
+			// the same bytes, split between method and path at another place ("G" + "ET/ping", "" + "GET/ping"):
+			// only the method token itself selects the method
+			cat := m + p
+			k := rng.Intn(len(cat) + 1)
+			m, p, cls = cat[:k], cat[k:], "method-path-resplit"
 		}
 		rq := totReq{Method: core.B(m), Path: core.B(p)}
 		for k := rng.Intn(3); k > 0; k-- {
@@ -155,6 +164,19 @@ type totInstance struct {
 
 func buildTot(c *totCase) *totInstance {
 	ti := &totInstance{f: flamego.NewWithLogger(io.Discard), models: map[string]*rmodel.Model{}, ok: true, cons: map[int]map[string]*regexp.Regexp{}}
+	if c.Wrap {
+		ti.f.HandlerWrapper(func(h flamego.Handler) flamego.Handler {
+			return func(ctx flamego.Context) {
+				vals, err := ctx.Invoke(h)
+				if err != nil {
+					panic(err)
+				}
+				if len(vals) == 1 && vals[0].Kind() == reflect.String {
+					_, _ = ctx.ResponseWriter().Write([]byte(vals[0].String()))
+				}
+			}
+		})
+	}
 	if c.MW {
 		ti.f.Use(func() { ti.cur.mw++ })
 	}
@@ -370,7 +392,7 @@ func judgeTotClasses(w *core.W, c *totCase, classes []string) {
 }
 
 func runC07(r *core.Run) {
-	r.Rule("valid route sets (1-8 routes of all kinds over 1-3 methods) x 30 hostile requests each: path classes {empty, slashes only, trailing slash, inner empty segments, bad escapes, non-UTF-8 / NUL, long (100-5000 segments or a 10^4-10^5 byte segment), random bytes, exact instance, near miss}; method tokens (the nine known, lower-case, empty, padded, NUL / non-UTF-8 bytes, BREW, 300 bytes); odd header sets; a quarter of the routes header-constrained and earlier paths re-requested with other header sets; default and custom not-found chain; with and without application middleware. Oracle: recover() around ServeHTTP, counting middleware (exactly one chain), the reference model for which chain, and equality of (chain, status, body, parameters) when the request is repeated on the same instance and on an identically rebuilt one that serves the request list in reverse order. non-trivial = distinct (route set, method class, path class, chain kind, not-found kind)")
+	r.Rule("valid route sets (1-8 routes of all kinds over 1-3 methods) x 30 hostile requests each: path classes {empty, slashes only, trailing slash, inner empty segments, bad escapes, non-UTF-8 / NUL, long (100-5000 segments or a 10^4-10^5 byte segment), random bytes, exact instance, near miss}; method tokens (the nine known, lower-case, empty, padded, NUL / non-UTF-8 bytes, BREW, 300 bytes; one request in twelve re-splits the bytes of method+path at another place); odd header sets; a quarter of the routes header-constrained and earlier paths re-requested with other header sets; default and custom not-found chain; with and without application middleware. Oracle: recover() around ServeHTTP, counting middleware (exactly one chain), the reference model for which chain, and equality of (chain, status, body, parameters) when the request is repeated on the same instance and on an identically rebuilt one that serves the request list in reverse order. non-trivial = distinct (route set, method class, path class, chain kind, not-found kind)")
 	r.Assume("req.URL is non-nil (net/http's contract); handlers are deterministic and do not panic")
 	c07Canaries(r)
 	n := r.N(10000, 800000)
